@@ -93,7 +93,7 @@ fn cmp_q(q: i64, rem: i64, e0: i32, m: u64, e: i32) -> Ordering {
     }
 }
 
-// @h name=c01_p16_div_modular props=C01,C16 fn=P16E1::div tier=quick t=300 kind=plain unwind=18 variant=B mode=P-modular
+// @h name=c01_p16_div_modular props=C01 fn=P16E1::div tier=quick t=300 kind=plain unwind=18 variant=B mode=P-modular
 #[kani::proof]
 #[kani::unwind(18)]
 #[kani::stub(crate::div, div_havoc)]
@@ -120,7 +120,7 @@ fn c01_p16_div_modular() {
     }
 }
 
-// @h name=c01_p32_div_modular props=C01,C16 fn=P32E2::div tier=quick t=600 kind=plain unwind=34 variant=B mode=P-modular
+// @h name=c01_p32_div_modular props=C01 fn=P32E2::div tier=quick t=600 kind=plain unwind=34 variant=B mode=P-modular
 #[kani::proof]
 #[kani::unwind(34)]
 #[kani::stub(crate::lldiv, lldiv_havoc)]
